@@ -84,10 +84,11 @@ def raise_event(kind: str, ex: BaseException, evs: list[dict], run_folder, desc:
     notes = list(getattr(ex, "__notes__", []) or [])
     attributed = False
     if fails:
-        f0 = fails[0]
         from .terms import from_json
-        attributed = any(f0["f"] in n and all(f"{p}=" in n and (v["f"] == "#arr" or repr(from_json(v)) in n) for p, v in f0["kwargs"])
-                         for n in notes)
+        # with several failing invocations the caller sees one of them: its note must name that function and kwargs
+        attributed = any(f0["f"] in n and all(f"{p}=" in n and (v["f"] == "#arr" or repr(from_json(v)) in n)
+                                              for p, v in f0["kwargs"])
+                         for n in notes for f0 in fails)
     loaded = []
     if run_folder is not None and fails and persistent:
         from pipefunc.map import load_outputs
